@@ -23,7 +23,7 @@ Print Assumptions C09_server_new.
 Theorem C09_drain :
   forall H ed_pk ed_sign, HashLen H -> PkLen ed_pk -> SigLen ed_sign ->
   forall cfg lt oi oc s queue clk coins,
-    SInv H ed_pk ed_sign cfg lt oi oc s -> fault_pct cfg = 0 ->
+    SInv H ed_pk ed_sign cfg lt oi oc s -> fault_pct cfg = 0 -> sends_ok cfg ->
     (1 <= batch_size cfg)%nat -> (batch_size cfg <= 255)%nat ->
     let srv := ltk_srv_value H ed_pk lt in
     let n := batch_size cfg in
@@ -34,6 +34,26 @@ Theorem C09_drain :
       /\ SInv H ed_pk ed_sign cfg lt oi oc s'.
 Proof. exact (fun H ed_pk ed_sign => drain_spec H ed_pk ed_sign classify_wellformed). Qed.
 Print Assumptions C09_drain.
+
+(* the same when the operating system refuses some sends (send_to returns an error for the
+   destinations with send_fails cfg a = true): exactly the specified datagrams whose send succeeded
+   are emitted, in the same order — a failed send loses that one reply and nothing else — and each
+   failure is recorded as a failed send attempt (spec_drain_stats_f) *)
+Theorem C09_drain_send_failures :
+  forall H ed_pk ed_sign, HashLen H -> PkLen ed_pk -> SigLen ed_sign ->
+  forall cfg lt oi oc s queue clk coins,
+    SInv H ed_pk ed_sign cfg lt oi oc s -> fault_pct cfg = 0 ->
+    (1 <= batch_size cfg)%nat -> (batch_size cfg <= 255)%nat ->
+    let srv := ltk_srv_value H ed_pk lt in
+    let n := batch_size cfg in
+    let sf := send_fails cfg in
+    exists s' lg,
+      process_events H ed_sign s queue clk coins =
+        Ok (s', mkso (spec_drain_sent_f H ed_pk ed_sign sf (S (length queue)) n srv lt oi oc clk 0 queue)
+                     (spec_drain_stats_f H ed_pk ed_sign sf (S (length queue)) n srv lt oi oc clk 0 queue) lg)
+      /\ SInv H ed_pk ed_sign cfg lt oi oc s'.
+Proof. exact (fun H ed_pk ed_sign => drain_spec_f H ed_pk ed_sign classify_wellformed). Qed.
+Print Assumptions C09_drain_send_failures.
 
 (* exactly one datagram per accepted request *)
 Theorem C09_one_each :
